@@ -179,9 +179,20 @@ func matrixCase(c *fw.Ctx, idx int) {
 	opts := sim.NetOpts{Peers: []peer.ID{A.ID}}
 	// authorization must not depend on settings that have nothing to do with trust:
 	// a third of the rounds run with tracing enabled
-	if r.Chance(1, 3) {
-		opts.Tune = func(cfg *ipfscluster.Config) { cfg.Tracing = true }
-		c.Cover("matrix/tracing-enabled")
+	// ... nor on follower mode (a peer that does not write to the pinset keeps every door
+	// shut that a full member keeps shut): a third of the rounds each, independently
+	tracing, follower := r.Chance(1, 3), r.Chance(1, 3)
+	if tracing || follower {
+		opts.Tune = func(cfg *ipfscluster.Config) {
+			cfg.Tracing = tracing
+			cfg.FollowerMode = follower
+		}
+		if tracing {
+			c.Cover("matrix/tracing-enabled")
+		}
+		if follower {
+			c.Cover("matrix/follower-mode")
+		}
 	}
 	trusted := map[string]bool{}
 	switch kind {
